@@ -4,6 +4,7 @@
 package c20
 
 import (
+	"archive/zip"
 	"bytes"
 	"fmt"
 	"os"
@@ -138,6 +139,7 @@ func inprocCase(c *core.Ctx, work string, fo *forest, f family, idx, L int) {
 		return
 	}
 	os.Remove(tgt)
+	rebuild := idx%3 == 1
 	detail := func(extra map[string]interface{}) map[string]interface{} {
 		d := map[string]interface{}{"family": f.stream, "L": L, "tree": kind, "entry": prog.src, "expected_code": prog.code,
 			"filler_tail": fmt.Sprintf("%q", tail(filler, 48))}
@@ -153,6 +155,19 @@ func inprocCase(c *core.Ctx, work string, fo *forest, f family, idx, L int) {
 	var res inprocResult
 	var logOut bytes.Buffer
 	p := &tool.CLIPacker{EntryFile: entry, Dir: &dir, SourceBinary: &src, TargetBinary: &tgt, LogOut: &logOut}
+	if rebuild {
+		// a rebuild: the target path already holds an older, LONGER packed file:
+		// the same build followed by a complete archive of another project and
+		// some more bytes - nothing of it may survive the second Pack()
+		core.Guard(func() { p.Pack() })
+		if fh, err := os.OpenFile(tgt, os.O_APPEND|os.O_WRONLY, 0o755); err == nil {
+			fh.Write([]byte("\n####ECALSRC####\n"))
+			fh.Write(staleArchive())
+			fh.Write(bytes.Repeat([]byte("tail"), 10+idx%311))
+			fh.Close()
+		}
+		logOut.Reset()
+	}
 	key, msg, panicked := core.Guard(func() { res.packErr = p.Pack() })
 	if panicked {
 		c.Violation(key, "Pack() panicked: "+firstLine(msg), f.stream, idx, detail(map[string]interface{}{"panic": msg}))
@@ -259,4 +274,23 @@ func firstLine(s string) string {
 		}
 	}
 	return s
+}
+
+var staleOnce sync.Once
+var staleZip []byte
+
+// staleArchive is a valid zip with an entry file that returns another code; a
+// packed file that still ends with it would run the wrong program.
+func staleArchive() []byte {
+	staleOnce.Do(func() {
+		var buf bytes.Buffer
+		w := zip.NewWriter(&buf)
+		f, _ := w.Create(".ecalsrc-entry")
+		f.Write([]byte("424242\n"))
+		g, _ := w.Create("old/stale.ecal")
+		g.Write(bytes.Repeat([]byte("# stale\n"), 400))
+		w.Close()
+		staleZip = buf.Bytes()
+	})
+	return staleZip
 }
